@@ -327,11 +327,36 @@ def derive(h, src, to, rng):
             h.sh[to] = Shadow(s.dl, [v for v in s.xs if pred(p, v, s.dl)])
 
 
+def sparsify(ops, rng):
+    """sparse observation mode (CONVENTIONS addendum 2): the constructor line gets `obs=sparse`, the
+    content is only looked at by an `observe` every 5-15 operations and one before `destroy`"""
+    if not ops or not ops[0].startswith("new"):
+        return ops
+    out = [ops[0] + " obs=sparse"]
+    gap = rng.randint(5, 15)
+    body = ops[1:]
+    last_destroy = len(body) - 1 if body and body[-1].startswith("destroy") else None
+    for i, op in enumerate(body):
+        if i == last_destroy:
+            out.append("observe")
+        out.append(op)
+        gap -= 1
+        if gap <= 0 and i != last_destroy:
+            out.append("observe")
+            gap = rng.randint(5, 15)
+    return out
+
+
 class ArraySizedGen:
     name = "array_sized"
 
     # ------------------------------------------------------------------ small scope
     def small_scope(self, tier, focus=None):
+        hs = self._small_scope(tier, focus)
+        # every third history runs in sparse observation mode (deterministically)
+        return [sparsify(h, random.Random(i)) if i % 3 == 1 else h for i, h in enumerate(hs)]
+
+    def _small_scope(self, tier, focus=None):
         out = []
         quick = tier == "quick"
         if focus in (None, "all", "growth", "reject"):
@@ -573,7 +598,8 @@ class ArraySizedGen:
     def random(self, rng, n, tier, focus=None):
         out = []
         for _ in range(n):
-            out.append(self._one(rng, focus))
+            h = self._one(rng, focus)
+            out.append(sparsify(h, rng) if rng.random() < 0.34 else h)
         return out
 
     def _one(self, rng, focus):
